@@ -42,8 +42,39 @@ impl Revision {
     }
 }
 
+/// End-of-line flavour for every EOL the builder writes outside stream data (§7.2.3: CR, LF
+/// and CRLF are all end-of-line markers). Cross-reference table entries stay 20 bytes
+/// (" \n", " \r" or "\r\n", §7.5.4); the `stream` keyword is always followed by LF (§7.3.8.1
+/// forbids CR alone) — that part is written by `syntax::write_obj`.
+#[derive(Clone, Copy, Debug, PartialEq, Eq, Hash, Default)]
+pub enum Eol {
+    #[default]
+    Lf,
+    Cr,
+    CrLf,
+}
+impl Eol {
+    pub fn s(self) -> &'static str {
+        match self {
+            Eol::Lf => "\n",
+            Eol::Cr => "\r",
+            Eol::CrLf => "\r\n",
+        }
+    }
+    /// the two bytes that end a 20-byte cross-reference table entry
+    pub fn entry_end(self) -> &'static str {
+        match self {
+            Eol::Lf => " \n",
+            Eol::Cr => " \r",
+            Eol::CrLf => "\r\n",
+        }
+    }
+}
+
 #[derive(Clone, Debug)]
 pub struct FileBuilder {
+    /// end-of-line flavour (default LF)
+    pub eol: Eol,
     pub version: String,
     pub root: (u32, u16),
     pub info: Option<(u32, u16)>,
@@ -66,14 +97,17 @@ pub struct Built {
 
 impl FileBuilder {
     pub fn new(root: u32) -> Self {
-        FileBuilder { version: "1.7".into(), root: (root, 0), info: None, revisions: Vec::new() }
+        FileBuilder { eol: Eol::Lf, version: "1.7".into(), root: (root, 0), info: None, revisions: Vec::new() }
     }
 
     pub fn build(&self) -> Built {
         let mut out: Vec<u8> = Vec::new();
         let mut built = Built::default();
-        out.extend_from_slice(format!("%PDF-{}\n", self.version).as_bytes());
-        out.extend_from_slice(b"%\xE2\xE3\xCF\xD3\n");
+        let e = self.eol.s();
+        let ee = self.eol.entry_end();
+        out.extend_from_slice(format!("%PDF-{}{e}", self.version).as_bytes());
+        out.extend_from_slice(b"%\xE2\xE3\xCF\xD3");
+        out.extend_from_slice(e.as_bytes());
         let mut max_obj: u32 = 0;
         for r in &self.revisions {
             for (n, _, _) in &r.objects {
@@ -101,9 +135,9 @@ impl FileBuilder {
                 }
                 offs.insert(*n, out.len());
                 entries.insert(*n, Entry::InUse(out.len(), *g));
-                out.extend_from_slice(format!("{n} {g} obj\n").as_bytes());
+                out.extend_from_slice(format!("{n} {g} obj{e}").as_bytes());
                 write_obj(o, &mut out);
-                out.extend_from_slice(b"\nendobj\n");
+                out.extend_from_slice(format!("{e}endobj{e}").as_bytes());
             }
             for (n, g) in &r.free {
                 entries.insert(*n, Entry::Free(0, *g));
@@ -135,9 +169,9 @@ impl FileBuilder {
                 let so = Obj::stream(d, data);
                 offs.insert(sn, out.len());
                 entries.insert(sn, Entry::InUse(out.len(), 0));
-                out.extend_from_slice(format!("{sn} 0 obj\n").as_bytes());
+                out.extend_from_slice(format!("{sn} 0 obj{e}").as_bytes());
                 write_obj(&so, &mut out);
-                out.extend_from_slice(b"\nendobj\n");
+                out.extend_from_slice(format!("{e}endobj{e}").as_bytes());
             }
             built.objstm_nums.push(objstm_num);
             // trailer dictionary
@@ -163,7 +197,7 @@ impl FileBuilder {
             let xoff = out.len();
             match r.form {
                 XrefForm::Table => {
-                    out.extend_from_slice(b"xref\n");
+                    out.extend_from_slice(format!("xref{e}").as_bytes());
                     let keys: Vec<u32> = entries.keys().copied().collect();
                     let mut i = 0;
                     while i < keys.len() {
@@ -171,19 +205,19 @@ impl FileBuilder {
                         while j + 1 < keys.len() && keys[j + 1] == keys[j] + 1 {
                             j += 1;
                         }
-                        out.extend_from_slice(format!("{} {}\n", keys[i], j - i + 1).as_bytes());
+                        out.extend_from_slice(format!("{} {}{e}", keys[i], j - i + 1).as_bytes());
                         for k in &keys[i..=j] {
                             match entries[k] {
-                                Entry::Free(nx, g) => out.extend_from_slice(format!("{nx:010} {g:05} f \n").as_bytes()),
-                                Entry::InUse(o, g) => out.extend_from_slice(format!("{o:010} {g:05} n \n").as_bytes()),
+                                Entry::Free(nx, g) => out.extend_from_slice(format!("{nx:010} {g:05} f{ee}").as_bytes()),
+                                Entry::InUse(o, g) => out.extend_from_slice(format!("{o:010} {g:05} n{ee}").as_bytes()),
                                 Entry::Compressed(..) => unreachable!(),
                             }
                         }
                         i = j + 1;
                     }
-                    out.extend_from_slice(b"trailer\n");
+                    out.extend_from_slice(format!("trailer{e}").as_bytes());
                     write_obj(&Obj::Dict(tr), &mut out);
-                    out.push(b'\n');
+                    out.extend_from_slice(e.as_bytes());
                 }
                 XrefForm::Stream => {
                     let xn = xrefstm_num.unwrap();
@@ -224,12 +258,12 @@ impl FileBuilder {
                         data
                     };
                     let so = Obj::Stream(Box::new(crate::syntax::StreamObj { dict: tr, data }));
-                    out.extend_from_slice(format!("{xn} 0 obj\n").as_bytes());
+                    out.extend_from_slice(format!("{xn} 0 obj{e}").as_bytes());
                     write_obj(&so, &mut out);
-                    out.extend_from_slice(b"\nendobj\n");
+                    out.extend_from_slice(format!("{e}endobj{e}").as_bytes());
                 }
             }
-            out.extend_from_slice(format!("startxref\n{xoff}\n%%EOF\n").as_bytes());
+            out.extend_from_slice(format!("startxref{e}{xoff}{e}%%EOF{e}").as_bytes());
             built.xrefstm_nums.push(xrefstm_num);
             built.offsets.push(offs);
             built.xref_offsets.push(xoff);
@@ -331,6 +365,58 @@ mod tests {
                 assert_eq!(f.get(11), Obj::Null);
                 let f0 = PdfFile::parse(&b.bytes[..b.lengths[0]]).unwrap();
                 assert_eq!(f0.get(10), Obj::Int(1));
+            }
+        }
+    }
+    /// All three end-of-line flavours give valid files that read back identically; CR-only
+    /// files contain no LF outside stream objects, and `stream` is never followed by CR alone.
+    #[test]
+    fn eol_flavours_validate_and_read_back() {
+        for eol in [Eol::Lf, Eol::Cr, Eol::CrLf] {
+            for (f1, f2, objstm) in [(XrefForm::Table, XrefForm::Table, false), (XrefForm::Table, XrefForm::Stream, false), (XrefForm::Stream, XrefForm::Table, true)] {
+                let objs = simple_doc_objects(2, &|i| format!("BT (p{i}) Tj ET").into_bytes());
+                let mut r = Revision::new(f1);
+                for (n, o) in objs {
+                    if objstm && !matches!(o, Obj::Stream(_)) {
+                        r.in_objstm.insert(n);
+                    }
+                    r.add(n, o);
+                }
+                r.add(10, Obj::Int(1));
+                r.add(11, Obj::Int(1));
+                let mut r2 = Revision::new(f2);
+                r2.add(10, Obj::Int(2));
+                r2.free.push((11, 1));
+                let mut fb = FileBuilder::new(1);
+                fb.eol = eol;
+                fb.revisions = vec![r, r2];
+                let b = fb.build();
+                let issues = validate(&b.bytes);
+                assert!(issues.is_empty(), "{eol:?} {f1:?}/{f2:?}: {issues:?}");
+                let f = PdfFile::parse(&b.bytes).unwrap();
+                assert_eq!(f.get(10), Obj::Int(2));
+                assert_eq!(f.get(11), Obj::Null);
+                let pages = f.pages().unwrap();
+                assert_eq!(pages.len(), 2);
+                assert_eq!(f.page_content(&pages[1]).unwrap(), b"BT (p1) Tj ET");
+                for (n, off) in &b.offsets[0] {
+                    assert!(b.bytes[*off..].starts_with(format!("{n} 0 obj{}", eol.s()).as_bytes()), "{eol:?}: header of {n}");
+                }
+                if f1 == XrefForm::Table {
+                    // 20-byte entries with the flavour's two-byte ending
+                    let x = b.xref_offsets[0] + 4 + eol.s().len();
+                    let hdr_end = crate::file::find_first(&b.bytes, eol.s().as_bytes(), x).unwrap() + eol.s().len();
+                    assert_eq!(&b.bytes[hdr_end + 18..hdr_end + 20], eol.entry_end().as_bytes());
+                }
+                if eol != Eol::Lf {
+                    assert!(crate::file::find_first(&b.bytes, b"obj\n", 0).is_none(), "{eol:?}: LF after an obj keyword");
+                }
+                // `stream` is followed by LF in every flavour
+                let mut p = 0;
+                while let Some(i) = crate::file::find_first(&b.bytes, b"\nstream", p) {
+                    assert_eq!(b.bytes[i + 7], b'\n', "{eol:?}: stream keyword at {i}");
+                    p = i + 7;
+                }
             }
         }
     }
